@@ -55,6 +55,7 @@ type vfile struct {
 	Records   int // vertices+faces / triangles / points / splats stored in the file
 	PTS1      *ptsSingle
 	Splat     bool
+	STLHeader string // kind of the 80-byte comment of a binary STL file
 	SPZDeg    int    // SH degree of an SPZ file, -1 otherwise
 	SPZGz     string // "stored" (level 0 blocks) or "deflated"
 	// sampling hints of the large-files phase
@@ -474,20 +475,17 @@ func plySplatExport(r *rand.Rand, v int, large bool) *vfile {
 
 func stlFile(r *rand.Rand, v int, large bool) *vfile {
 	n := size(r, large, 1, 12, 200, 800)
-	if v%8 == 5 {
+	if v%16 == 13 {
 		n = 0
 	}
-	own := v%2 == 1
+	own := v%8 != 0 // polyform's writer always leaves the comment zeroed
+	hk := stlHeaderKinds[v%8]
 	var data []byte
 	writer := "polyform-writer"
 	if own {
 		writer = "foreign-writer"
 		b := &bytes.Buffer{}
-		hdr := make([]byte, 80)
-		for i := range hdr {
-			hdr[i] = byte(1 + r.Intn(255))
-		}
-		copy(hdr, "binary stl by c14 ")
+		hdr := stlHeader(r, hk)
 		b.Write(hdr)
 		binary.Write(b, binary.LittleEndian, uint32(n))
 		withNormals := r.Intn(2) == 0
@@ -518,7 +516,47 @@ func stlFile(r *rand.Rand, v int, large bool) *vfile {
 		data = b.Bytes()
 	}
 	return &vfile{Format: "stl", Kind: "stl/" + writer, Site: "stl.ReadMesh", Data: data, dec: decSTL, Records: n, WantPrims: n,
-		Marks: []mark{{"header", 0}, {"count", 80}, {"triangles", 84}}, Desc: "t" + bucket(n)}
+		Marks: []mark{{"header", 0}, {"count", 80}, {"triangles", 84}}, Desc: "t" + bucket(n) + "/" + hk, STLHeader: hk}
+}
+
+// stlHeaderKinds: what tools put into the 80-byte comment of a binary STL. A comment that
+// starts with "solid" is legal and common (CAD exporters); it is what a text-STL sniffer
+// trips over.
+var stlHeaderKinds = []string{"zeros", "random-bytes", "solid-name", "blank-solid", "upper-SOLID", "binary-stl-text", "text-with-newline", "80-printable"}
+
+func stlHeader(r *rand.Rand, kind string) []byte {
+	hdr := make([]byte, 80)
+	switch kind {
+	case "random-bytes":
+		for i := range hdr {
+			hdr[i] = byte(1 + r.Intn(255))
+		}
+	case "solid-name":
+		copy(hdr, "solid part_"+strconv.Itoa(r.Intn(1000)))
+		if r.Intn(2) == 0 {
+			for i := range hdr {
+				if hdr[i] == 0 {
+					hdr[i] = ' '
+				}
+			}
+		}
+	case "blank-solid":
+		copy(hdr, "  solid x")
+	case "upper-SOLID":
+		copy(hdr, "SOLID EXPORTED BY CAD")
+	case "binary-stl-text":
+		copy(hdr, "binary stl by the c14 generator ")
+	case "text-with-newline":
+		copy(hdr, "solid made by a slicer\n")
+	case "80-printable":
+		for i := range hdr {
+			hdr[i] = byte(33 + r.Intn(94))
+		}
+		if r.Intn(2) == 0 {
+			copy(hdr, "solid")
+		}
+	}
+	return hdr
 }
 
 func spzFile(r *rand.Rand, version uint32, v int, large bool) *vfile {
